@@ -241,6 +241,9 @@ func (fr *Frame) safety(st *State, cond *Term, what string) {
 	}
 	if fr.nopanic && fr.dry == nil {
 		fr.v.emit(fr, st, "nopanic", "nopanic", cond, what)
+	} else if fr.dry == nil && fr.ctrFlag("nopanic-bounds") && (strings.HasPrefix(what, "index out of range") || strings.HasPrefix(what, "slice bounds") || strings.HasPrefix(what, "division") || strings.HasPrefix(what, "rand.Intn")) {
+		// partial no-panic claim: index / slice bounds, division and rand.Intn arguments only
+		fr.v.emit(fr, st, "nopanic", "nopanic-bounds", cond, what)
 	}
 	st.assume(cond)
 }
@@ -259,7 +262,12 @@ func (fr *Frame) load(st *State, p Ptr, t types.Type) Value {
 	}
 	c, ok := st.cellFor(p.H, elem)
 	if !ok {
-		fail("%s: load from unknown cell %s", fr.fn, p.H)
+		var ks []string
+		for k := range st.heap {
+			ks = append(ks, k)
+		}
+		sort.Strings(ks)
+		fail("%s: load from unknown cell %s (heap: %v)", fr.fn, p.H, ks)
 	}
 	v, err := st.getPath(c.V, p.Path)
 	if err != nil {
@@ -423,8 +431,12 @@ func (fr *Frame) binop(st *State, op token.Token, x, y Value, xt types.Type, rt 
 			r = Mod(a, b)
 		} else if b.IsInt() && b.I.Sign() > 0 {
 			r = Ite(Ge(a, Int(0)), Mod(a, b), Neg(Mod(Neg(a), b)))
+		} else if Le(Int(0), a).IsTrue() && Lt(Int(0), b).IsTrue() {
+			r = Mod(a, b)
 		} else {
 			r = UF("rem", SInt, a, b)
+			// sign and magnitude of Go's remainder for a non-negative dividend and positive divisor
+			st.assume(Implies(And(Le(Int(0), a), Lt(Int(0), b)), And(Le(Int(0), r), Lt(r, b))))
 		}
 		return Scalar{r}
 	case token.SHR:
@@ -843,6 +855,10 @@ func (fr *Frame) step(st *State, in ssa.Instruction) {
 			_ = id
 		}
 		if obj := x.Object(); obj != nil {
+			if !x.IsAddr && fr.envAddr[obj.Name()] {
+				// the variable lives in memory: keep its address (a read's value would go stale)
+				break
+			}
 			fr.env[obj.Name()] = fr.get(st, x.X)
 			if x.IsAddr {
 				fr.envAddr[obj.Name()] = true
@@ -1276,10 +1292,12 @@ func (st *State) keyTerm(k Value) (*Term, error) {
 				return UF("ikey_"+sc.T.Sort.Name, SInt, st.eng.tidOf(x.Dyn), sc.T), nil
 			}
 			if p, ok := x.V.(Ptr); ok && len(p.Path) == 0 {
-				return UF("ikey_Int", SInt, st.eng.tidOf(x.Dyn), p.H), nil
+				return p.H, nil
 			}
 		} else {
-			return UF("ikey_Int", SInt, x.Tid, x.Box), nil
+			// symbolic interface values: the dynamic type is a function of the box handle, so the
+			// handle alone identifies the key (and is trivially injective)
+			return x.Box, nil
 		}
 	}
 	return st.handleOf(k)
@@ -1300,6 +1318,10 @@ func (st *State) mapGet(mo *MapObj, key Value) (Value, *Term, error) {
 	if mo.Base != nil {
 		has = UF(mapUF("has", kt.Sort), SBool, mo.Base, kt)
 		val = st.symValue(vt, UF(mapUF("get", kt.Sort), SInt, mo.Base, kt))
+		if kt.IsInt() || kt.IsStr() || isAtomic(kt) {
+			// a map that holds a key is not empty
+			st.assume(Implies(has, Le(Int(1), UF("map.len", SInt, mo.Base))))
+		}
 	} else {
 		has = False
 		val = st.zeroValue(vt)
@@ -1329,7 +1351,9 @@ func (st *State) mapGet(mo *MapObj, key Value) (Value, *Term, error) {
 		has = Ite(c, True, has)
 		nv, ok := iteValue(c, e.V, val)
 		if !ok {
-			return nil, nil, fmt.Errorf("map lookup needs fork: undecided key equality %s with non-scalar values", c)
+			// value not expressible as an if-then-else of the two candidates: an unknown value of the
+			// element type (sound over-approximation; presence is still exact)
+			nv = st.freshValue(vt, "mapval")
 		}
 		val = nv
 	}
